@@ -7,8 +7,9 @@ CONFIG = {
             'error / return-the-passed-error at visit k) and SkipDir-then-action pairs; (2) random trees <=25 nodes, depth<=4 over '
             '12 names that sort differently as strings and as paths (a, a-b, a.b, a0, ab, B, _ ...) x roots {/, nested dir, '
             'unclean spellings, file, missing under root/dir/file, .} x random tables. glob/rglob: every pattern of length<=3 '
-            '(4 thorough) over "ab*?[]-^/" relative and absolute on 3 fixed trees, generated patterns of 1-4 elements over '
-            '* ? [ab] [a-c] [^a] literals following existing paths, and a malformed/escaped stream (no oracle). match: '
+            '(4 thorough) over "ab*?[]-^/\\" relative and absolute on 3 fixed trees, generated patterns of 1-4 elements over '
+            '* ? [ab] [a-c] [^a] literals and escaped characters (\\c, [\\c], \\c*) following existing paths, and a malformed/escaped '
+            'stream; every pattern, malformed or not, is judged against filepath.Glob (matches, order, ErrBadPattern). match: '
             'filepath.Match on every pattern<=3 over "ab*?[]-^\\" x names<=2 plus random ones. Every tree is built on MemMapFs, '
             'BasePathFs(mem,"/"), CopyOnWriteFs(split over base and layer) and as real files in a temp dir (filepath.* reference). '
             'distinct = hash of the case line without id; non-trivial = walk with >=2 visits or a non-nil result, glob with >=1 match, '
@@ -21,7 +22,7 @@ CONFIG = {
                      'filepath.Join / Split / Clean from Lib/Path.v (modelled, compared through every reported path)'],
     'assumptions': ['the tree does not change during the call and has no symlinks; directories are readable (readDirNames cannot fail)',
                     'callbacks are functions of the visits seen so far (state machines); filepath.SkipAll is not used',
-                    'names and patterns are ASCII; patterns contain no backslash and have fewer than 10000 bytes',
+                    'names and patterns are ASCII; patterns have fewer than 10000 bytes (escapes and malformed patterns are covered)',
                     'paths are absolute and clean enough that lexical Clean and kernel resolution agree '
                     '(relative paths: only through BasePathFs, MemMapFs has no working directory)'],
     'vm_sample': {'quick': 60, 'thorough': 400},
